@@ -35,6 +35,15 @@ def plainScalar : FieldDecl → Bool
   | .number _ | .integer _ | .float _ | .string _ _ _ | .boolean | .enumLit _ => true
   | _ => false
 
+/-- scalar kinds that store the raw input unchanged and for which "accepted" and "conforms" are the same
+    test (Number, Integer, String, Enum of literals): an `AllOf` over them stores a value every option
+    conforms to.  Float (an int is accepted and normalised), Boolean (the strings 'True' / 'False' are
+    accepted) and enum classes (names are accepted) keep the raw input inside AllOf: findings
+    `admits:allOf`, `admits:raw-boolean-string` -/
+def rawScalar : FieldDecl → Bool
+  | .number _ | .integer _ | .string _ _ _ | .enumLit _ => true
+  | _ => false
+
 /-- item kinds for which `==`-distinct stored values have JSON-distinct serializations -/
 def uniqSafe : FieldDecl → Bool
   | .enumCls _ _ => true
@@ -66,7 +75,7 @@ def fragF : FieldDecl → Bool
   | .anyOf fs =>
     if optShape fs then fragOpt fs else !fs.isEmpty && fs.all plainScalar && fragL fs
   | .oneOf _ => false
-  | .allOf _ => false
+  | .allOf fs => !fs.isEmpty && fs.all rawScalar && fragL fs
   | .notF _ => false
   | .noneF => false
   | .anything => false
@@ -167,6 +176,7 @@ def regF (O : Oracles) : FieldDecl → PyVal → Bool
       && regFields O attrs fields
     | _ => false)
   | .anyOf fs, v => if optShape fs then !v.isNone && regOpt O fs v else regAll O fs v
+  | .allOf fs, v => regAll O fs v
   | _, _ => false
 termination_by structural f _ => f
 def regZip (O : Oracles) : List FieldDecl → List PyVal → Bool
